@@ -324,6 +324,62 @@ func concStressChild(args []string) int {
 			r2.ExtractResourceBank().Close()
 		}
 	}
+	// damaged inputs for the shared codecs, with the error each one gives when nobody else is decoding (computed
+	// now, before the goroutines start): the same input gives the same error later, whoever else is failing
+	type badInput struct {
+		idx  int
+		b    []byte
+		want string
+	}
+	var bad []badInput
+	{
+		rng0 := rand.New(rand.NewSource(seed + 77))
+		decodeErr := func(idx int, b []byte) string {
+			out := reflect.New(sharedTypes[idx])
+			r := avro.NewReadBuf(b)
+			defer r.ExtractResourceBank().Close()
+			if err := sharedCodecs[idx].Read(r, out.UnsafePointer()); err != nil {
+				return err.Error()
+			}
+			return ""
+		}
+		for idx := range sharedTypes {
+			v := genValues(rng0, sharedTypes[idx], 1)[0]
+			w := avro.NewWriteBuf(nil)
+			sharedCodecs[idx].Write(w, v.Addr().UnsafePointer())
+			full := append([]byte{}, w.Bytes()...)
+			for cut := 0; cut < len(full) && cut < 60; cut++ {
+				b := append([]byte{}, full[:cut]...)
+				if e := decodeErr(idx, b); e != "" {
+					bad = append(bad, badInput{idx, b, e})
+				}
+				b2 := append(append([]byte{}, full[:cut]...), 0xff, 0xff, 0xff, 0xff, 0xff, 0xff, 0xff, 0xff, 0xff, 0xff, 0xff)
+				if e := decodeErr(idx, b2); e != "" {
+					bad = append(bad, badInput{idx, b2, e})
+				}
+			}
+		}
+	}
+	// schemas generated for types that share structs behind pointers, slices and maps, one at a time
+	var genTypes []reflect.Type
+	var genWant []string
+	genText := func(t reflect.Type) string {
+		sch, err := avro.SchemaForType(reflect.New(t).Elem().Interface())
+		if err != nil {
+			return "error: " + err.Error()
+		}
+		b, err := sch.Marshal()
+		if err != nil {
+			return "marshal error: " + err.Error()
+		}
+		return string(b)
+	}
+	for _, sc := range staticCases() {
+		genTypes = append(genTypes, sc.typ, reflect.StructOf([]reflect.StructField{{Name: "P", Type: reflect.PointerTo(sc.typ), Tag: `json:"p"`}, {Name: "L", Type: reflect.SliceOf(sc.typ), Tag: `json:"l"`}}))
+	}
+	for _, t := range genTypes {
+		genWant = append(genWant, genText(t))
+	}
 	banks := make(chan *avro.ResourceBank, 1024)
 	for g := 0; g < ng; g++ {
 		wg.Add(1)
@@ -331,7 +387,50 @@ func concStressChild(args []string) int {
 			defer wg.Done()
 			rng := rand.New(rand.NewSource(seed*1000 + int64(g)))
 			for k := 0; k < nops; k++ {
-				switch rng.Intn(9) {
+				switch rng.Intn(11) {
+				case 9: // decodes that fail, several goroutines at a time through the one shared codec: the error a goroutine
+					// holds is the error of its own input, also after others have failed
+					if len(bad) == 0 {
+						continue
+					}
+					seen := map[[2]string]int{}
+					for it := 0; it < 12; it++ {
+						bi := bad[rng.Intn(len(bad))]
+						out := reflect.New(sharedTypes[bi.idx])
+						r := avro.NewReadBuf(bi.b)
+						err := sharedCodecs[bi.idx].Read(r, out.UnsafePointer())
+						runtime.Gosched()
+						got := ""
+						if err != nil {
+							got = err.Error()
+						}
+						r.ExtractResourceBank().Close()
+						seen[[2]string{bi.want, got}]++
+					}
+					agree := 0
+					for k, n := range seen {
+						if k[0] == k[1] {
+							agree += n // (the judge sees one event for all of them: s = bytes = empty)
+							continue
+						}
+						results[g] = append(results[g], stressRecord{Op: "conc_err", G: g, N: n, S: byteList([]byte(clipS(k[0], 300))), Bytes: byteList([]byte(clipS(k[1], 300)))})
+					}
+					results[g] = append(results[g], stressRecord{Op: "conc_err", G: g, N: agree, S: []int{0}, Bytes: []int{0}})
+				case 10: // schema generation for types that share structs: the same schema as when nobody else generates
+					seen := map[[2]string]int{}
+					for it := 0; it < 2; it++ {
+						ti := rng.Intn(len(genTypes))
+						seen[[2]string{genWant[ti], genText(genTypes[ti])}]++
+					}
+					agree := 0
+					for k, n := range seen {
+						if k[0] == k[1] {
+							agree += n // (the judge sees one event for all of them: s = bytes = empty)
+							continue
+						}
+						results[g] = append(results[g], stressRecord{Op: "conc_gen", G: g, N: n, S: byteList([]byte(clipS(k[0], 400))), Bytes: byteList([]byte(clipS(k[1], 400)))})
+					}
+					results[g] = append(results[g], stressRecord{Op: "conc_gen", G: g, N: agree, S: []int{0}, Bytes: []int{0}})
 				case 8: // register a codec and a schema for a type only this goroutine knows; both are in effect once the calls return
 					mine := reflect.StructOf([]reflect.StructField{{Name: fmt.Sprintf("G%dK%d", g, k), Type: reflect.TypeOf(int64(0))}})
 					var built atomic.Int32
@@ -783,7 +882,7 @@ func driveC12(c *driverCtx) error {
 					e["schema"] = schemaNodes[int(idx)]
 				}
 				c.rec.Emit(key, e)
-			case "conc_time", "conc_str", "conc_reg":
+			case "conc_time", "conc_str", "conc_reg", "conc_err", "conc_gen":
 				c.rec.Emit(key, e)
 			case "conc_file":
 				e["inputs"] = fileInputs
